@@ -615,7 +615,7 @@ func TestVerif_C14_GJKR(t *testing.T) {
 	defer r.Finish()
 	r.SetRule("real GJKR state chain (13 states, 5 of them zero-length) under the real SyncMachine, n in {3,5,7}, on the virtual clock: lock-step (one block at a time at quiescence), bursts of 2-4 blocks, start block already passed, members launched late. non-trivial = every run (the chain has zero-length states); bursts and late launches are counted")
 	r.Assume("the virtual block counter emits the requested block number from a height waiter, as keep-core's local_v1 and ethereum block counters do")
-	n := r.N(48, 1500)
+	n := r.N(96, 1500)
 	var wd int64
 	signing := local_v1.Connect(7, 4).Signing()
 	verifkit.Parallel(n, 0, func(i int) {
